@@ -663,3 +663,365 @@ Proof.
   induction fuel as [|f IH]; [reflexivity|].
   cbn [check_split_owner pts_of get nth has_pts negb splits_of splits]. rewrite IH. reflexivity.
 Qed.
+
+(* With that cycle excluded (a rank function on point-less OutRecs that decreases along split lists) and the owner graph a
+   forest, CheckSplitOwner terminates: every marker-protected descent marks a new OutRec with points, every unprotected
+   descent lowers the rank, every step along a list shortens it. *)
+Section Termination.
+  Variables (inside bcontains : nat -> nat -> bool).
+  Notation cso := (check_split_owner inside bcontains).
+
+  (* ---- more fuel never changes an answer *)
+  Lemma get_real_mono : forall f m x r, get_real f m x = Some r -> forall f', f <= f' -> get_real f' m x = Some r.
+  Proof.
+    induction f as [|f IH]; intros m [j|] r H f' Hle.
+    - cbn [get_real] in H. destruct (pts_of m j) eqn:E; [|discriminate]. destruct f'; cbn [get_real]; rewrite E; exact H.
+    - destruct f'; exact H.
+    - destruct f' as [|f']; [lia|]. cbn [get_real] in *. destruct (pts_of m j); auto. apply IH; auto. lia.
+    - destruct f'; exact H.
+  Qed.
+
+  Lemma reaches_mono : forall f m x t b, reaches f m x t = Some b -> forall f', f <= f' -> reaches f' m x t = Some b.
+  Proof.
+    induction f as [|f IH]; intros m [j|] t b H f' Hle.
+    - cbn [reaches] in H. destruct (Nat.eqb j t) eqn:E; [|discriminate]. destruct f'; cbn [reaches]; rewrite E; exact H.
+    - destruct f'; exact H.
+    - destruct f' as [|f']; [lia|]. cbn [reaches] in *. destruct (Nat.eqb j t); auto. apply IH; auto. lia.
+    - destruct f'; exact H.
+  Qed.
+
+  Lemma is_valid_owner_mono f m i t b : is_valid_owner f m i t = Some b -> forall f', f <= f' -> is_valid_owner f' m i t = Some b.
+  Proof.
+    unfold is_valid_owner. intros H f' Hle. destruct (reaches f m (Some t) i) as [r|] eqn:E; [|discriminate].
+    rewrite (reaches_mono _ _ _ _ _ E _ Hle). exact H.
+  Qed.
+
+  (* one step of CheckSplitOwner, cut in two *)
+  Definition cso_first (f : nat) (m : omap) (i s : nat) : option (omap * bool) :=
+    if negb (pts_of m s) then cso f m i (splits_of m s) else Some (m, false).
+
+  Definition cso_tail (f : nat) (m1 : omap) (i s : nat) (rest : list nat) : option (omap * bool) :=
+    match get_real f m1 (Some s) with
+    | None => None
+    | Some None => cso f m1 i rest
+    | Some (Some s') =>
+      if Nat.eqb s' i || opt_eqb (rsplit_of m1 s') i then cso f m1 i rest
+      else
+        let m2 := set_rsplit m1 s' (Some i) in
+        match cso f m2 i (splits_of m2 s') with
+        | None => None
+        | Some (m3, true) => Some (m3, true)
+        | Some (m3, false) =>
+          match is_valid_owner f m3 i s' with
+          | None => None
+          | Some v =>
+            if check_bounds m3 s' && v && bcontains s' i && inside i s'
+            then Some (set_owner_field m3 i (Some s'), true)
+            else cso f m3 i rest
+          end
+        end
+    end.
+
+  Lemma cso_unfold f m i s rest :
+    cso (S f) m i (s :: rest) =
+    match cso_first f m i s with
+    | None => None
+    | Some (m1, true) => Some (m1, true)
+    | Some (m1, false) => cso_tail f m1 i s rest
+    end.
+  Proof. reflexivity. Qed.
+
+  Lemma cso_mono : forall f m i spl r, cso f m i spl = Some r -> forall f', f <= f' -> cso f' m i spl = Some r.
+  Proof.
+    induction f as [|f IH]; intros m i spl r H f' Hle; [discriminate|].
+    destruct f' as [|f']; [lia|]. assert (Hle' : f <= f') by lia.
+    destruct spl as [|s rest]; [exact H|].
+    rewrite cso_unfold in *.
+    assert (Hfirst : forall r1, cso_first f m i s = Some r1 -> cso_first f' m i s = Some r1).
+    { unfold cso_first. intros r1 H1. destruct (negb (pts_of m s)); [eapply IH; eauto|exact H1]. }
+    destruct (cso_first f m i s) as [[m1 b1]|] eqn:E1; [|discriminate].
+    rewrite (Hfirst _ eq_refl). destruct b1; [exact H|].
+    unfold cso_tail in *.
+    destruct (get_real f m1 (Some s)) as [x|] eqn:Eg; [|discriminate].
+    rewrite (get_real_mono _ _ _ _ Eg _ Hle').
+    destruct x as [s'|]; [|eapply IH; eauto].
+    destruct (Nat.eqb s' i || opt_eqb (rsplit_of m1 s') i); [eapply IH; eauto|].
+    cbv zeta in *.
+    destruct (cso f (set_rsplit m1 s' (Some i)) i (splits_of (set_rsplit m1 s' (Some i)) s')) as [[m3 b3]|] eqn:E3; [|discriminate].
+    rewrite (IH _ _ _ _ E3 _ Hle'). destruct b3; [exact H|].
+    destruct (is_valid_owner f m3 i s') as [v|] eqn:Ev; [|discriminate].
+    rewrite (is_valid_owner_mono _ _ _ _ _ Ev _ Hle').
+    destruct (check_bounds m3 s' && v && bcontains s' i && inside i s'); [exact H|]. eapply IH; eauto.
+  Qed.
+
+  (* ---- the measure *)
+  Variable i : nat.
+  Variable rk : nat -> nat.
+
+  Definition unmarked (m : omap) (k : nat) : bool := pts_of m k && negb (opt_eqb (rsplit_of m k) i).
+  Definition U (m : omap) : nat := length (filter (unmarked m) (seq 0 (length m))).
+
+  Definition keeps (m m' : omap) : Prop :=
+    length m' = length m /\
+    (forall k, pts_of m' k = pts_of m k /\ splits_of m' k = splits_of m k /\ owner_of m' k = owner_of m k) /\
+    (forall k, opt_eqb (rsplit_of m k) i = true -> opt_eqb (rsplit_of m' k) i = true).
+
+  Definition ranked (m : omap) : Prop :=
+    forall s s2, pts_of m s = false -> In s2 (splits_of m s) -> pts_of m s2 = false -> rk s2 < rk s.
+
+  Fixpoint lrank (m : omap) (spl : list nat) : nat :=
+    match spl with
+    | [] => 0
+    | s :: t => Nat.max (if pts_of m s then 0 else S (rk s)) (lrank m t)
+    end.
+
+  Lemma keeps_refl m : keeps m m.
+  Proof. repeat split; auto. Qed.
+
+  Lemma keeps_trans a b c : keeps a b -> keeps b c -> keeps a c.
+  Proof.
+    intros (L1 & F1 & M1) (L2 & F2 & M2). split; [congruence|]. split.
+    - intros k. destruct (F1 k) as (P1 & S1 & O1). destruct (F2 k) as (P2 & S2 & O2). repeat split; congruence.
+    - intros k Hk. auto.
+  Qed.
+
+  Lemma keeps_good m m' : good m -> keeps m m' -> good m'.
+  Proof. intros Hg (L & F & _). eapply same_owner_good; eauto. intros k. apply F. Qed.
+
+  Lemma keeps_ranked m m' : ranked m -> keeps m m' -> ranked m'.
+  Proof.
+    intros Hr (_ & F & _) s s2 H1 H2 H3. destruct (F s) as (P1 & S1 & _). destruct (F s2) as (P2 & _ & _).
+    apply Hr; congruence.
+  Qed.
+
+  Lemma keeps_lrank m m' spl : keeps m m' -> lrank m' spl = lrank m spl.
+  Proof.
+    intros (_ & F & _). induction spl as [|s t IH]; cbn [lrank]; auto. destruct (F s) as (P & _ & _). rewrite P, IH. reflexivity.
+  Qed.
+
+  Lemma filter_length_le {A} (P P' : A -> bool) l :
+    (forall k, In k l -> P' k = true -> P k = true) -> length (filter P' l) <= length (filter P l).
+  Proof.
+    induction l as [|a t IH]; intros H; cbn [filter length]; auto.
+    assert (IHt : length (filter P' t) <= length (filter P t)) by (apply IH; intros; apply H; cbn; auto).
+    destruct (P' a) eqn:E'; destruct (P a) eqn:E; cbn [length]; try lia.
+    rewrite (H a) in E; cbn; auto. discriminate.
+  Qed.
+
+  Lemma filter_length_lt {A} (P P' : A -> bool) l x :
+    (forall k, In k l -> P' k = true -> P k = true) -> In x l -> P x = true -> P' x = false ->
+    length (filter P' l) < length (filter P l).
+  Proof.
+    induction l as [|a t IH]; intros H Hin Hx Hx'; [destruct Hin|].
+    cbn [filter]. assert (Hle : length (filter P' t) <= length (filter P t)) by (apply filter_length_le; intros; apply H; cbn; auto).
+    destruct Hin as [->|Hin].
+    - rewrite Hx, Hx'. cbn [length]. lia.
+    - assert (IHt : length (filter P' t) < length (filter P t)) by (apply IH; auto; intros; apply H; cbn; auto).
+      destruct (P' a) eqn:E'; destruct (P a) eqn:E; cbn [length]; try lia.
+      rewrite (H a) in E; cbn; auto. discriminate.
+  Qed.
+
+  Lemma U_keeps m m' : keeps m m' -> U m' <= U m.
+  Proof.
+    intros (L & F & M). unfold U. rewrite L. apply filter_length_le. intros k _ Hk. unfold unmarked in *.
+    destruct (F k) as (P & _ & _). rewrite P in Hk. apply andb_prop in Hk. destruct Hk as [Hp Hn]. rewrite Hp. cbn [andb].
+    destruct (opt_eqb (rsplit_of m k) i) eqn:E; auto. rewrite (M k E) in Hn. discriminate.
+  Qed.
+
+  Lemma rsplit_set_same m s o : s < length m -> rsplit_of (set_rsplit m s o) s = o.
+  Proof. intros H. unfold rsplit_of, set_rsplit. rewrite get_upd_same by exact H. reflexivity. Qed.
+
+  Lemma rsplit_set_other m s k o : s <> k -> rsplit_of (set_rsplit m s o) k = rsplit_of m k.
+  Proof. intros H. unfold rsplit_of, set_rsplit. rewrite get_upd_other by exact H. reflexivity. Qed.
+
+  Lemma fields_set_rsplit m s o k :
+    pts_of (set_rsplit m s o) k = pts_of m k /\ splits_of (set_rsplit m s o) k = splits_of m k /\
+    owner_of (set_rsplit m s o) k = owner_of m k.
+  Proof.
+    unfold pts_of, splits_of, owner_of, set_rsplit. destruct (Nat.eq_dec s k) as [->|Hne].
+    - destruct (Nat.lt_ge_cases k (length m)) as [Hlt|Hge].
+      + rewrite get_upd_same by exact Hlt. auto.
+      + rewrite upd_oob by exact Hge. auto.
+    - rewrite get_upd_other by exact Hne. auto.
+  Qed.
+
+  Lemma opt_eqb_refl k : opt_eqb (Some k) k = true.
+  Proof. cbn. apply Nat.eqb_refl. Qed.
+
+  Lemma keeps_mark m s : keeps m (set_rsplit m s (Some i)).
+  Proof.
+    split; [unfold set_rsplit; apply length_upd|]. split; [intros k; apply fields_set_rsplit|].
+    intros k Hk. destruct (Nat.eq_dec s k) as [->|Hne].
+    - destruct (Nat.lt_ge_cases k (length m)) as [Hlt|Hge].
+      + rewrite rsplit_set_same by exact Hlt. apply opt_eqb_refl.
+      + unfold set_rsplit. rewrite upd_oob by exact Hge. exact Hk.
+    - rewrite rsplit_set_other by exact Hne. exact Hk.
+  Qed.
+
+  Lemma pts_in_range m k : pts_of m k = true -> k < length m.
+  Proof.
+    intros H. destruct (Nat.lt_ge_cases k (length m)); auto. unfold pts_of in H. rewrite get_oob in H by assumption. discriminate.
+  Qed.
+
+  Lemma U_mark m s : pts_of m s = true -> opt_eqb (rsplit_of m s) i = false -> U (set_rsplit m s (Some i)) < U m.
+  Proof.
+    intros Hp Hu. pose proof (pts_in_range _ _ Hp) as Hlt. unfold U.
+    replace (length (set_rsplit m s (Some i))) with (length m) by (unfold set_rsplit; symmetry; apply length_upd).
+    apply filter_length_lt with (x := s).
+    - intros k _ Hk. pose proof (U_keeps _ _ (keeps_mark m s)) as _. unfold unmarked in *.
+      destruct (fields_set_rsplit m s (Some i) k) as (P & _ & _). rewrite P in Hk. apply andb_prop in Hk. destruct Hk as [Hkp Hkn].
+      rewrite Hkp. cbn [andb]. destruct (opt_eqb (rsplit_of m k) i) eqn:E; auto.
+      destruct (keeps_mark m s) as (_ & _ & M). rewrite (M k E) in Hkn. discriminate.
+    - apply in_seq. lia.
+    - unfold unmarked. rewrite Hp, Hu. reflexivity.
+    - unfold unmarked. rewrite rsplit_set_same by exact Hlt. rewrite opt_eqb_refl. apply andb_false_r.
+  Qed.
+
+  Lemma lrank_splits m s : ranked m -> pts_of m s = false -> lrank m (splits_of m s) <= rk s.
+  Proof.
+    intros Hr Hs. assert (H : forall l, (forall s2, In s2 l -> In s2 (splits_of m s)) -> lrank m l <= rk s).
+    { induction l as [|a t IH]; intros Hin; cbn [lrank]; [lia|].
+      assert (IHt : lrank m t <= rk s) by (apply IH; intros; apply Hin; cbn; auto).
+      destruct (pts_of m a) eqn:Ea; [lia|]. pose proof (Hr s a Hs (Hin a (or_introl eq_refl)) Ea). lia. }
+    apply H. auto.
+  Qed.
+
+  Lemma get_real_pts : forall f m x r, get_real f m x = Some (Some r) -> pts_of m r = true.
+  Proof.
+    induction f as [|f IH]; intros m [j|] r H; cbn [get_real] in H; try discriminate.
+    - destruct (pts_of m j) eqn:E; [|discriminate]. injection H as <-. exact E.
+    - destruct (pts_of m j) eqn:E; [injection H as <-; exact E|]. eapply IH; eauto.
+  Qed.
+
+  Lemma cso_false_keeps : forall f m spl m', cso f m i spl = Some (m', false) -> keeps m m'.
+  Proof.
+    induction f as [|f IH]; intros m spl m' H; [discriminate|].
+    destruct spl as [|s rest]; [injection H as <-; apply keeps_refl|].
+    rewrite cso_unfold in H.
+    destruct (cso_first f m i s) as [[m1 b1]|] eqn:E1; [|discriminate].
+    destruct b1; [discriminate|].
+    assert (K1 : keeps m m1).
+    { unfold cso_first in E1. destruct (negb (pts_of m s)); [eapply IH; eauto|]. injection E1 as <-. apply keeps_refl. }
+    unfold cso_tail in H.
+    destruct (get_real f m1 (Some s)) as [[s'|]|]; [| |discriminate].
+    2:{ eapply keeps_trans; eauto. }
+    destruct (Nat.eqb s' i || opt_eqb (rsplit_of m1 s') i); [eapply keeps_trans; eauto|].
+    cbv zeta in H.
+    destruct (cso f (set_rsplit m1 s' (Some i)) i (splits_of (set_rsplit m1 s' (Some i)) s')) as [[m3 b3]|] eqn:E3; [|discriminate].
+    destruct b3; [discriminate|].
+    destruct (is_valid_owner f m3 i s') as [v|]; [|discriminate].
+    destruct (check_bounds m3 s' && v && bcontains s' i && inside i s'); [discriminate|].
+    eapply keeps_trans; [exact K1|]. eapply keeps_trans; [apply keeps_mark|]. eapply keeps_trans; eauto.
+  Qed.
+
+  Lemma cso_term : forall nU nR spl m, good m -> ranked m -> U m <= nU -> lrank m spl <= nR ->
+    exists fuel r, cso fuel m i spl = Some r.
+  Proof.
+    induction nU as [nU IHU] using lt_wf_ind. induction nR as [nR IHR] using lt_wf_ind.
+    induction spl as [|s rest IHs]; intros m Hg Hr HU HR.
+    { exists 1. eexists. reflexivity. }
+    cbn [lrank] in HR.
+    (* the unprotected descent *)
+    assert (H1 : exists f1 r1, cso_first f1 m i s = Some r1).
+    { unfold cso_first. destruct (pts_of m s) eqn:Ep; cbn [negb]; [exists 0; eauto|].
+      apply (IHR (rk s)); auto; [lia|]. apply lrank_splits; auto. }
+    destruct H1 as (f1 & [m1 b1] & E1).
+    destruct b1.
+    { exists (S f1). eexists. rewrite cso_unfold, E1. reflexivity. }
+    assert (K1 : keeps m m1).
+    { unfold cso_first in E1. destruct (negb (pts_of m s)); [eapply cso_false_keeps; eauto|]. injection E1 as <-. apply keeps_refl. }
+    assert (Hg1 : good m1) by exact (keeps_good _ _ Hg K1).
+    assert (Hr1 : ranked m1) by exact (keeps_ranked _ _ Hr K1).
+    assert (HU1 : U m1 <= nU) by (pose proof (U_keeps _ _ K1); lia).
+    assert (Hrest : forall mm, keeps m mm -> exists fr rr, cso fr mm i rest = Some rr).
+    { intros mm K. apply IHs.
+      - exact (keeps_good _ _ Hg K).
+      - exact (keeps_ranked _ _ Hr K).
+      - pose proof (U_keeps _ _ K). lia.
+      - rewrite (keeps_lrank _ _ rest K). lia. }
+    (* GetRealOutRec *)
+    destruct (get_real_total m1 (S (length m1)) (Some s)) as [x Eg].
+    { destruct (good_dist m1 s Hg1) as (d & Hd & Hle). exists d. split; auto. lia. }
+    set (fg := S (length m1)) in *.
+    assert (Hfin : forall f2 r2, cso_tail f2 m1 i s rest = Some r2 -> exists fuel r, cso fuel m i (s :: rest) = Some r).
+    { intros f2 r2 E2. exists (S (Nat.max f1 f2)). exists r2. rewrite cso_unfold.
+      assert (E1' : cso_first (Nat.max f1 f2) m i s = Some (m1, false)).
+      { unfold cso_first in *. destruct (negb (pts_of m s)); auto. eapply cso_mono; eauto. lia. }
+      rewrite E1'.
+      (* cso_tail is monotone in the fuel as well *)
+      revert E2. unfold cso_tail. intros E2.
+      destruct (get_real f2 m1 (Some s)) as [y|] eqn:Eg2; [|discriminate].
+      rewrite (get_real_mono _ _ _ _ Eg2 (Nat.max f1 f2)) by lia.
+      destruct y as [s'|]; [|eapply cso_mono; eauto; lia].
+      destruct (Nat.eqb s' i || opt_eqb (rsplit_of m1 s') i); [eapply cso_mono; eauto; lia|].
+      cbv zeta in *.
+      destruct (cso f2 (set_rsplit m1 s' (Some i)) i (splits_of (set_rsplit m1 s' (Some i)) s')) as [[m3 b3]|] eqn:E3; [|discriminate].
+      rewrite (cso_mono _ _ _ _ _ E3 (Nat.max f1 f2)) by lia. destruct b3; [exact E2|].
+      destruct (is_valid_owner f2 m3 i s') as [v|] eqn:Ev; [|discriminate].
+      rewrite (is_valid_owner_mono _ _ _ _ _ Ev (Nat.max f1 f2)) by lia.
+      destruct (check_bounds m3 s' && v && bcontains s' i && inside i s'); [exact E2|]. eapply cso_mono; eauto; lia. }
+    destruct x as [s'|].
+    2:{ destruct (Hrest m1 K1) as (fr & rr & Er). apply (Hfin (Nat.max fg fr) rr). unfold cso_tail.
+        rewrite (get_real_mono _ _ _ _ Eg (Nat.max fg fr)) by lia. eapply cso_mono; eauto. lia. }
+    destruct (Nat.eqb s' i || opt_eqb (rsplit_of m1 s') i) eqn:Eskip.
+    { destruct (Hrest m1 K1) as (fr & rr & Er). apply (Hfin (Nat.max fg fr) rr). unfold cso_tail.
+      rewrite (get_real_mono _ _ _ _ Eg (Nat.max fg fr)) by lia. rewrite Eskip. eapply cso_mono; eauto. lia. }
+    apply orb_false_elim in Eskip. destruct Eskip as [Eeq Eun].
+    pose proof (get_real_pts _ _ _ _ Eg) as Hp'.
+    set (m2 := set_rsplit m1 s' (Some i)).
+    assert (K2 : keeps m1 m2) by apply keeps_mark.
+    assert (HU2 : U m2 < U m1) by (apply U_mark; auto).
+    assert (Hg2 : good m2) by exact (keeps_good _ _ Hg1 K2).
+    assert (Hr2 : ranked m2) by exact (keeps_ranked _ _ Hr1 K2).
+    assert (Htail : forall F, fg <= F -> cso_tail F m1 i s rest =
+      match cso F m2 i (splits_of m2 s') with
+      | None => None
+      | Some (m3, true) => Some (m3, true)
+      | Some (m3, false) =>
+        match is_valid_owner F m3 i s' with
+        | None => None
+        | Some v => if check_bounds m3 s' && v && bcontains s' i && inside i s'
+                    then Some (set_owner_field m3 i (Some s'), true) else cso F m3 i rest
+        end
+      end).
+    { intros F HF. unfold cso_tail. rewrite (get_real_mono _ _ _ _ Eg F HF). rewrite Eeq, Eun. reflexivity. }
+    (* the protected descent: one more OutRec is marked *)
+    assert (HltU : U m2 < nU) by lia.
+    destruct (IHU (U m2) HltU (lrank m2 (splits_of m2 s')) (splits_of m2 s') m2 Hg2 Hr2 (le_n _) (le_n _)) as (f3 & [m3 b3] & E3).
+    destruct b3.
+    { apply (Hfin (Nat.max fg f3) (m3, true)). rewrite Htail by lia.
+      rewrite (cso_mono _ _ _ _ _ E3 (Nat.max fg f3)) by lia. reflexivity. }
+    assert (K3 : keeps m2 m3) by (eapply cso_false_keeps; eauto).
+    assert (Hg3 : good m3) by exact (keeps_good _ _ Hg2 K3).
+    assert (Ev : exists v, is_valid_owner (S (length m3)) m3 i s' = Some v).
+    { unfold is_valid_owner. destruct (good_dist m3 s' Hg3) as (d & Hd & Hle).
+      destruct (reaches_total m3 i (S (length m3)) s' d Hd) as [bb Hbb]; [lia|]. rewrite Hbb. eauto. }
+    destruct Ev as [v Ev]. set (fv := S (length m3)) in *.
+    destruct (check_bounds m3 s' && v && bcontains s' i && inside i s') eqn:Ec.
+    { apply (Hfin (Nat.max fg (Nat.max f3 fv)) (set_owner_field m3 i (Some s'), true)). rewrite Htail by lia.
+      rewrite (cso_mono _ _ _ _ _ E3 (Nat.max fg (Nat.max f3 fv))) by lia.
+      rewrite (is_valid_owner_mono _ _ _ _ _ Ev (Nat.max fg (Nat.max f3 fv))) by lia. rewrite Ec. reflexivity. }
+    assert (Km3 : keeps m m3) by (eapply keeps_trans; [exact K1|]; eapply keeps_trans; [exact K2|exact K3]).
+    destruct (Hrest m3 Km3) as (fr & rr & Er).
+    apply (Hfin (Nat.max fg (Nat.max f3 (Nat.max fv fr))) rr). rewrite Htail by lia.
+    rewrite (cso_mono _ _ _ _ _ E3 (Nat.max fg (Nat.max f3 (Nat.max fv fr)))) by lia.
+    rewrite (is_valid_owner_mono _ _ _ _ _ Ev (Nat.max fg (Nat.max f3 (Nat.max fv fr)))) by lia. rewrite Ec.
+    eapply cso_mono; eauto. lia.
+  Qed.
+End Termination.
+
+(* CheckSplitOwner terminates in every state whose owner graph is a forest and in which no chain of point-less OutRecs
+   through split lists returns to itself (rk: a rank that decreases along such chains). *)
+Theorem check_split_terminates : forall inside bcontains (rk : nat -> nat) m i spl,
+  acyclic m -> (forall a o, owner_of m a = Some o -> o < length m) ->
+  (forall s s2, pts_of m s = false -> In s2 (splits_of m s) -> pts_of m s2 = false -> rk s2 < rk s) ->
+  exists fuel r, check_split_owner inside bcontains fuel m i spl = Some r.
+Proof.
+  intros inside bcontains rk m i spl Hac Hb Hr.
+  eapply (cso_term inside bcontains i rk (U i m) (lrank rk m spl)); auto. split; auto.
+Qed.
+
+(* the hypothesis is satisfiable, e.g. by every state without split lists *)
+Example ranked_example : forall s s2, pts_of [mkOrec None true [] None] s = false -> In s2 (splits_of [mkOrec None true [] None] s) ->
+  pts_of [mkOrec None true [] None] s2 = false -> 0 < 0.
+Proof. intros [|[|s]] s2 _ H; cbn in H; destruct H. Qed.
